@@ -6,6 +6,16 @@ VERIF = os.path.dirname(os.path.dirname(os.path.abspath(__file__)))
 ALL = ["C%02d" % i for i in range(1, 21)]
 
 # pid -> dict(engine, level, text, note, technique, design_ref)
+EXTRA_TEXT = {
+    "C01": " Schedules also vary reuse scopes (own+shared subsets), retry settings, remote and generated-suite instances; the monitor checks the scope of every named source.",
+    "C02": " Schedules include persistent failure / never-reported results of one test or creation step; the algorithm model is additionally checked for the temporal property NoSpin (no coroutine keeps the event loop for ever) on two small instances.",
+    "C04": " Schedules also vary reuse scopes and mix local and remote workers.",
+    "C05": " The algorithm model carries the per-worker cleanup guard of fix ce5db6a (OwnUnexplored); the design before the fix is explored as a fidelity guard and must violate NoC05; generated suites with removable states at random depths are part of the campaign.",
+    "C08": " The real TestWorker.get_session runs (only the login is substituted): state-control requests and remote test processes must go through the session of the node's own worker.",
+    "C10": " A two-phase replay campaign (complete first jobs, then jobs replaying their result files with kept/removed states and own retry settings) validates the replay clause (previous results in the retry rule, ReplayOK).",
+    "C20": " Part C: chains of real tools (incl. create/clean/collect) on one shared run configuration - parameters each step runs with, run parameters kept, failure reported by the tool - from the spec's phase 'real'.",
+}
+
 CLAIMS = {
     "C17": dict(
         engine="sequential-specs",
@@ -155,7 +165,7 @@ CLAIMS = {
         engine="parse",
         level="model_checking",
         text='real parses (eager for several selections x worker sets incl. clones/permanent vm/clusters; lazy expansion during real traversals) are recorded as parse events + final snapshot and replayed by TLC against specs/parse/GraphParse.tla: every event is a spec action, structural checks after each, and WellFormed per graph (unique identity, both-ends edges equal to the events, one starting node reaching all, acyclic, exactly one producing parent per required state for the same worker and object, one net and the named vms, clone sources not runnable)',
-        note="selections/worker sets of the shipped sample suite with one variant per vm; generated suites with random setup DAGs are not built in this revision; TLC's role is the evaluation of the spec's invariants over recorded parses (parsing is deterministic)",
+        note="selections/worker sets of the shipped sample suite with one variant per vm; plus generated suites (vf/parse/gensuite.py: random setup DAGs and product tests, incl. multi-producer dependencies, on the shipped object-creation/customize/connect base; the generator's own declaration checks the resolver); TLC's role is the evaluation of the spec's invariants over recorded parses (parsing is deterministic)",
         technique="recorded parse traces of the real parser validated by TLC against a TLA+ specification of well-formed graphs; independent resolver as oracle for C07",
         design_ref='6/C06',
     ),
@@ -163,7 +173,7 @@ CLAIMS = {
         engine="parse",
         level="model_checking",
         text="per selection and worker the class-level dependency edges of the real parse are compared by TLC (GraphParse.AsDeclared, OncePerWorker) with the edges derived by an independent resolver that uses only virttest.cartesian_config.Parser on the suite's files (own composition, own per-object parameter view, producers = variants of all..<get> setting the required state, cloning rule for multi-producer dependencies)",
-        note="selections/worker sets of the shipped sample suite with one variant per vm; generated suites with random setup DAGs are not built in this revision; TLC's role is the evaluation of the spec's invariants over recorded parses (parsing is deterministic)",
+        note="selections/worker sets of the shipped sample suite with one variant per vm; plus generated suites (vf/parse/gensuite.py: random setup DAGs and product tests, incl. multi-producer dependencies, on the shipped object-creation/customize/connect base; the generator's own declaration checks the resolver); TLC's role is the evaluation of the spec's invariants over recorded parses (parsing is deterministic)",
         technique="recorded parse traces of the real parser validated by TLC against a TLA+ specification of well-formed graphs; independent resolver as oracle for C07",
         design_ref='6/C07',
     ),
@@ -171,7 +181,7 @@ CLAIMS = {
         engine="parse",
         level="model_checking",
         text='TLC (GraphParse.Linked, SameAsReference) validates on real parses: bridging symmetric, complete, only between equivalent nodes of different workers, registers shared; per-worker class sets and edges equal; graphs after real lazy traversals under random schedules have, for every expanded test, exactly the eager dependencies and nothing selected left unexpanded; a second parse equals the first',
-        note="selections/worker sets of the shipped sample suite with one variant per vm; generated suites with random setup DAGs are not built in this revision; TLC's role is the evaluation of the spec's invariants over recorded parses (parsing is deterministic)",
+        note="selections/worker sets of the shipped sample suite with one variant per vm; plus generated suites (vf/parse/gensuite.py: random setup DAGs and product tests, incl. multi-producer dependencies, on the shipped object-creation/customize/connect base; the generator's own declaration checks the resolver); TLC's role is the evaluation of the spec's invariants over recorded parses (parsing is deterministic)",
         technique="recorded parse traces of the real parser validated by TLC against a TLA+ specification of well-formed graphs; independent resolver as oracle for C07",
         design_ref='6/C09',
     ),
@@ -223,7 +233,7 @@ def build():
             "evidence_file": "/verif/evidence/%s.json" % pid,
             "replay_cmd_template": "./check %s --replay {path}" % pid,
             "engine": c["engine"],
-            "level_claimed": {"category": c["level"], "text": c["text"], "design_ref": "DESIGN.md section " + c["design_ref"]},
+            "level_claimed": {"category": c["level"], "text": c["text"] + EXTRA_TEXT.get(pid, ""), "design_ref": "DESIGN.md section " + c["design_ref"]},
             "level_note": c["note"],
             "technique": c["technique"],
         })
